@@ -39,6 +39,7 @@ type Tx struct {
 	Rows     []int  `json:"rows"` // rows updated (ids 1..8; sorted, so that workers cannot deadlock each other)
 	Insert   bool   `json:"insert"`
 	Decision string `json:"decision"` // commit | rollback
+	FailStmt bool   `json:"fail_stmt,omitempty"` // the last statement fails (duplicate key): the branch ends in phase one, phase two finds nothing
 }
 
 type Case struct {
@@ -281,6 +282,11 @@ func runTx(t Tx, names []string, phase2 *sync.WaitGroup) (err error) {
 					return e
 				}
 			}
+			if t.FailStmt {
+				if _, e := x.ExecContext(cx, "INSERT INTO "+names[0]+" (id, v) VALUES (?, ?)", 1, 1); e != nil {
+					return decide // the business gives up: global rollback
+				}
+			}
 		}
 		if t.Decision == "rollback" {
 			return decide
@@ -345,7 +351,7 @@ func TestPropConcurrentWorkload(t *testing.T) {
 			nt := rapid.IntRange(1, 3).Draw(rt, "txs")
 			for i := 0; i < nt; i++ {
 				t := Tx{Kind: rapid.SampledFrom([]string{"at", "at", "xa", "tcc"}).Draw(rt, "kind"), Via: rapid.SampledFrom([]string{"db", "conn"}).Draw(rt, "via"),
-					Decision: rapid.SampledFrom([]string{"commit", "commit", "rollback"}).Draw(rt, "decision"), Insert: rapid.IntRange(0, 3).Draw(rt, "insert") == 0}
+					Decision: rapid.SampledFrom([]string{"commit", "commit", "rollback"}).Draw(rt, "decision"), Insert: rapid.IntRange(0, 3).Draw(rt, "insert") == 0, FailStmt: rapid.IntRange(0, 4).Draw(rt, "failStmt") == 0}
 				rows := map[int]bool{}
 				for k := rapid.IntRange(1, 3).Draw(rt, "nRows"); k > 0; k-- {
 					rows[rapid.IntRange(1, 8).Draw(rt, "row")] = true
@@ -355,7 +361,7 @@ func TestPropConcurrentWorkload(t *testing.T) {
 				}
 				sort.Ints(t.Rows)
 				txs = append(txs, t)
-				shape = append(shape, fmt.Sprintf("%s/%s/%s/%d", t.Kind, t.Via, t.Decision, len(t.Rows)))
+				shape = append(shape, fmt.Sprintf("%s/%s/%s/%d/%v", t.Kind, t.Via, t.Decision, len(t.Rows), t.FailStmt))
 			}
 			c.Workers = append(c.Workers, txs)
 		}
